@@ -39,6 +39,9 @@ def main(prop, path):
             tp, tb = proto.execute(binary, wd, "replay", sc)
             rows = read_ndjson(tp)
             res = proto.judge(prop, wd, "replay", tp, tb, kfs)
+        elif kind == "hook":
+            import hook
+            rows, res = hook.replay(prop, wd, r, binary, kfs)
         elif kind == "relay":
             import relay
             rows, res = relay.replay(prop, wd, r, binary)
